@@ -45,7 +45,7 @@ TEXT = ['a', 'b', 'Z', ' ', '  ', '\n', '\n\n', '\t', '#', ':', '"', "'", '-', '
         '　', 'word', 'Create a server.', '\n    indented literal', '\n\n  * bullet', '%(x)s', '"name": "rule"', '\n"x": "@"',
         '\n#"x": "@"', "\n'", '\n- a', '\n? q', '\n!!python/object', '{{', '}}', '\n...\n', '\n---\n', 'y' * 71, ' ' * 75,
         '\n \n', '\n\t\n', 'k: v\n', '\r', '\r', '\n  lit\rx: y', '\x85', '\u2028', '\u2029', '\n  a\u2028"k": "@"', '\n: ', '<<', '&a', '*a', '%TAG']
-NAMECH = list('abcxyz019') + [':', ':', '_', '-', '.', '/', 'é', 'ü', '*', '+', '\U0001F600', '\U00010348']     # incl. printable characters outside the basic plane
+NAMECH = list('abcxyz019') + [':', ':', '_', '-', '.', '/', 'é', 'ü', '*', '+', '\U0001F600', '\U00010348', '\U00020BB7', '\U0002A6A5', '\U00030000']     # incl. printable characters outside the basic plane (planes 1, 2 and 3)
 CHECKS = ['role:a', "'x':%(y)s or role:b", '', '@', '!', 'rule:z and not role:q', "(role:a or 'Member':%(role.name)s) and not rule:r",
           'project_id:%(project_id)s', 'role:a#b', 'http://h/%(n)s', 'is_admin:True or (role:é and k:v)', "role:it's", 'a:b,c', 'x:{y}',
           'tenant:%(tenant_id)s  or   role:spaced', 'rule:admin_required', 'user_id:%(user.id)s', '[role:a]', 'not @', 'role:  a',
@@ -53,7 +53,7 @@ CHECKS = ['role:a', "'x':%(y)s or role:b", '', '@', '!', 'rule:z and not role:q'
           '(role:admin and project_id:%(project_id)s) or (role:member and user_id:%(user_id)s) or rule:a_rather_long_rule_name_here',
           'x:' + 'y' * 90 + ' or role:z', 'role:' + 'a' * 120,
           # printable characters outside the basic multilingual plane (a JSON escape spells them as a surrogate pair)
-          'role:\U0001F600', "'\U0001D518':%(k)s or role:\U00010348x", 'rule:\U0001F680_team and not role:a']
+          'role:\U0001F600', "'\U0001D518':%(k)s or role:\U00010348x", 'rule:\U0001F680_team and not role:a', 'role:\U00020BB7', "'\U0002A6A5x':%(k)s or role:\U00030000"]
 
 
 def gen_text(rnd, n):
